@@ -103,6 +103,7 @@ def c01(run):
     from rules import r_codec, r_width, r_fixup
     P = run.prog('rel')
     r_codec.run(run, P)
+    r_codec.run_toklen(run, P)
     r_width.run_a(run, P)
     r_fixup.run_stale(run, P, only=_codec_funcs(P))
     r_fixup.run_pairing(run, P)
@@ -121,7 +122,9 @@ def c03(run):
     P = run.prog('rel')
     r_width.run_b(run, P)
     r_codec.run(run, P)
+    r_codec.run_toklen(run, P)
     r_parsegate.run(run, P)
+    r_parsegate.run_outputs(run, P)
     run.min_instances('R-WIDTH', 4)
     run.min_instances('R-PARSE-GATE', 15)
     run.assumptions = ASSUME_COMMON + ["agreement with an independent decoder on all inputs and the per-option length table are NOT decided"]
@@ -141,6 +144,7 @@ def c04(run):
     r_fixup.run_pairing(run, P)
     from rules import r_codec
     r_codec.run(run, P)
+    r_codec.run_toklen(run, P)
     run.min_instances('R-FIXUP', 8)
     run.assumptions = ASSUME_COMMON + ["equality with the list model after arbitrary edit sequences is NOT decided"]
     return run.finish(
@@ -154,6 +158,7 @@ def c05(run):
     P = run.prog('rel')
     r_stream.run_adv(run, P)
     r_stream.run_phase(run, P)
+    r_stream.run_cursor(run, P)
     r_stream.run_cap(run, P)
     run.min_instances('R-STREAM-ADV', 4)
     run.min_instances('R-STREAM-CAP', 4)
@@ -273,7 +278,7 @@ def c09(run):
     r_relonce.run(run, P)
     from rules import r_cmpbound
     n = r_cmpbound.run(run, P, units=('coap_block.c',))
-    run.require(n >= 15, 'R-CMP-BOUND: fewer than 15 key comparisons found in coap_block.c')
+    run.require(n >= (15 if run.cfg == 'base' else 1), 'R-CMP-BOUND: fewer than 15 (base) / 1 (reduced configurations) key comparisons found in coap_block.c')
     run.min_instances('R-RELEASE-ONCE', 5)
     run.assumptions = ASSUME_COMMON + ["body integrity, tiling, at-most-once delivery, token hiding and size fitting (arithmetic over runtime lengths and schedules) are NOT decided",
                                        "paths on which taking the global lock fails carry no obligations"]
@@ -351,6 +356,8 @@ def c02(run):
     run.min_instances('R-CMP-BOUND', 40)
     from rules import r_countcap
     r_countcap.run(run, P)
+    from rules import r_stalecopy
+    r_stalecopy.run(run, P)
     run.min_instances('R-RANGE', 12)
     run.min_instances('R-STREAM-CAP', 4)
     run.min_instances('R-PARSE-GATE', 15)
@@ -367,7 +374,8 @@ def c02(run):
         "closes the session (R-STREAM-CAP); the protocol layer is only entered after successful parsing and every malformed-input condition "
         "leads to rejection (R-PARSE-GATE); no pointer into a PDU buffer is used after a call that may reallocate it, library-wide (R-FIXUP); every "
         "memcmp/strncmp over a length-delimited string is bounded by that string's own length (R-CMP-BOUND); a persistent element count that bounds a "
-        "fixed-size array (block reassembly tracker) only grows behind one common capacity guard (R-COUNT-CAP).")
+        "fixed-size array (block reassembly tracker) only grows behind one common capacity guard (R-COUNT-CAP); a local copy of an owned pointer "
+        "field is not used after a call that is handed the owning object and may free that field (R-STALE-COPY).")
 
 
 PROPS = {
